@@ -708,6 +708,10 @@ def run(chk):
     # behaviour (7.24.2.1); such a copy needs memmove.  Every memcpy call of the runtime header is examined: a call is fine when at
     # most one side points into a memory's data
     check_overlapping_memcpy(chk)
+    # R11.13: every in-bounds access lies inside the allocated object: the allocator reserves initialPages (for a shared memory, whose
+    # storage memory.grow never moves: maxPages) x 64 KiB and records the same size (allocator rule shared with C06 R06.7)
+    c06.check_allocators(chk, rule='R11.13')
+    chk.floor('R11.13', 8)
     chk.ok('R11.11', 'slots-declared', '%d control-flow scripts use declared operand-stack variables only' % n_decl)
     compile_witness(chk, h.source(), chk.tier)
     if undecided and not chk.unlisted_violations():
